@@ -652,6 +652,7 @@ class Verifier:
             sl = j_strlist(v.term)
             st.assume(tm.Eq(tm.Len(sl), n))
             st.assume(tm.Le(tm.Int(0), n))
+            st.assume(tm.Lt(n, tm.Int(2 ** 32)))            # A-MEM
             st.assume(tm.ForAll([i], tm.Implies(rng, tm.Eq(tm.Nth(sl, i), V.j_sval(V.j_lget(v.term, i))))))
             return Sym(("list", "str"), sl)
         raise Unsupported("coercion of JSON value to %r" % (spec,))
